@@ -387,9 +387,12 @@ func rwPrograms(doc []byte, k int, seed int64, base []interface{}) (progs [][]rw
 		paths = []rwPath{{nil, 'z'}, {[]interface{}{0}, 'z'}, {[]interface{}{"a"}, 'z'}, {[]interface{}{0, 0}, 'z'}}
 	}
 	progs = make([][]rwOp, k)
-	// MarshalJSON programs only in every 4th case (seed % 4 == 0), Raw() takes their place otherwise:
-	// in the -race build every case that meets finding C16-marshal-raw-unlocked costs a worker restart
-	marshalOK := seed%4 == 0
+	// (while finding C16-marshal-raw-unlocked was open MarshalJSON programs were generated in every 4th case
+	// only - each hit costs a worker restart in the -race build; VERIF_C16_MARSHAL_QUARTER restores that)
+	marshalOK := true
+	if os.Getenv("VERIF_C16_MARSHAL_QUARTER") != "" {
+		marshalOK = seed%4 == 0
+	}
 	for g := 0; g < k; g++ {
 		r := rand.New(rand.NewSource(seed*1000003 + int64(g)*7919 + 17))
 		nops := 1 + r.Intn(4)
